@@ -59,6 +59,25 @@ Definition sample_tx_fail : tx :=
 Definition sample_tx_sudo : tx := mk_tx 105 0 0 [AFeeChange KTransfer 7 0; AFeeAsset true 1].
 Definition sample_tx_bsudo : tx := mk_tx 106 2 0 [ABSudo 6 None (Some 7) 0 true].
 
+(** account 5 is an IBC relayer and IbcRelay has a fee schedule; [bb] = Blackburn active *)
+Definition sample_relay_state (bb : bool) : state :=
+  set_round (set_fees (set_relayer sample_state (fun x => x =? 5))
+                      (updk sample_fees KIbcRelay (Some (9, 0)))) bb 5.
+(** a transfer followed by an IbcRelay message that fails execution *)
+Definition sample_tx_relay : tx := mk_tx 107 5 0 [ATransfer 4 10 0 0; AIbcRelayFailing 0].
+Definition sample_tx_relay_prefix : tx := mk_tx 108 5 0 [ATransfer 4 10 0 0].
+
+(** asset 1 is a second allowed fee asset; account 4 pays a transfer fee in it, then the sudo
+    account 0 removes asset 1 from the allowed fee assets - all in one block *)
+Definition sample_two_fee_assets : state := set_fee_assets sample_state [0; 1].
+Definition sample_tx_fee_in_1 : tx := mk_tx 111 4 0 [ATransfer 5 100 0 1].
+Definition sample_tx_remove_1 : tx := mk_tx 112 0 0 [AFeeAsset false 1].
+Definition sample_ops_fee_asset_removed : list op :=
+  let s0 := begin_block sample_two_fee_assets 3 6 in
+  let c1 := checked s0 sample_tx_fee_in_1 in
+  let s1 := fst (exec_tx s0 c1) in
+  [OpBegin 3 6; OpExec c1; OpExec (checked s1 sample_tx_remove_1)].
+
 Definition sample_ops : list op :=
   [OpBegin 3 6;
    OpExec (checked sample_state sample_tx1);
